@@ -103,6 +103,25 @@ def cast_inst(kind, lhs, rhs, src_wrap, tier):
     return Inst(name, srcp, '%s<%s>(x);' % (fn, lhs), cl, h, leaves=leaves, prop=PROP, root_name=fn, tier=tier, pre=PRE_GHOST, pre_defines=pre_def)
 
 
+def struct_opaque_insts(tier):
+    """to_opaque / from_opaque of a registered struct: the opaque object has the application-side size and identical bytes
+    (g_b: an arbitrary byte index of the object)"""
+    out = []
+    for S in (['VOuter'] if tier == 'quick' else ['VOuter', 'VMisc']):
+        TT = cs('rlbox::tainted<rlbox::%s, rlbox::vsbx>' % S)
+        TO = cs('rlbox::tainted_opaque<rlbox::%s, rlbox::vsbx>' % S)
+        cl = [('obj', '__CPROVER_requires(__CPROVER_r_ok($this, sizeof(struct %s)) && g_b < sizeof(struct %s))' % (TT, TT)),
+              ('same_size', '__CPROVER_ensures(sizeof(struct %s) == sizeof(struct %s))' % (TT, TO)),
+              ('every_byte_identical', '__CPROVER_ensures(((const unsigned char *)&$ret)[g_b] == ((const unsigned char *)$this)[g_b])'),
+              ('frame', '__CPROVER_assigns()')]
+        h = '  struct %s x; unsigned long in_b; g_b = in_b; __CPROVER_assume(in_b < sizeof(x));\n  struct %s r = $ROOT(&x);\n' % (TT, TO)
+        pick = lambda tu, fn, S=S: find_func(tu, 'to_opaque', 'rlbox::tainted<rlbox::%s, rlbox::vsbx>' % S)
+        out.append(Inst('c20_struct_to_opaque_%s' % S, 'tainted<%s, vsbx>& x' % S, 'x.to_opaque();', cl, h, leaves=[], prop=PROP, root_name='to_opaque', tier=tier,
+                        pre=PRE_GHOST + ' unsigned long g_b;\n', root_pick=pick, object_bits=12, note='struct %s: application-side size, byte for byte' % S))
+        # from_opaque(struct) copy-constructs std::array members (implicit copy constructors of library types): not extracted
+    return out
+
+
 def units(tier):
     insts = []
     types = ['int', 'int*', 'double', 'unsigned char'] if tier == 'quick' else ['int', 'int*', 'double', 'unsigned char', 'long', 'long long', 'short', 'float', 'char', 'void*']
@@ -120,7 +139,7 @@ def units(tier):
                   ('static', 'unsigned long', 'unsigned long long', 'tainted'), ('static', 'long', 'short', 'tainted_volatile')]
     for c in casts:
         insts.append(cast_inst(*c, tier))
-    return [Unit('C20_opaque_casts', insts)]
+    return [Unit('C20_opaque_casts', insts), Unit('C20_struct_opaque', struct_opaque_insts(tier), includes=('rlbox.hpp', 'vsbx.hpp', 'vstructs.hpp'))]
 
 
 ASSUMPTIONS = [
@@ -130,5 +149,5 @@ ASSUMPTIONS = [
 TRUSTED = ['floating-point values are compared by bit pattern (union punning in the specification)']
 MANIFEST = {
     'level_text': 'to_opaque and from_opaque are proved to produce an object with identical size and bit pattern for every value of every listed type, and the round trip is a lemma over the two contracts; each sandbox cast is proved to return a tainted value whose content is exactly what the corresponding C++ cast yields on the underlying value - for pointers the designated address is unchanged (tainted source) or is the translated content of the cell (tainted_volatile source). Loop-free, full-width symbolic inputs: complete.',
-    'level_note': 'Instance list: primitives, pointers; struct opaque copies are decided under C08. The result *types* (still tainted) are what clang instantiated: the emitted signatures carry them.',
+    'level_note': 'Instance list: primitives, pointers, and registered structs (to_opaque byte for byte at the application-side size; from_opaque of a struct is not extracted: it copy-constructs std::array members). The result *types* (still tainted) are what clang instantiated: the emitted signatures carry them.',
 }
